@@ -1429,7 +1429,9 @@ def run(chk: Check) -> None:
     calib = calibrate_ort()
     chk.info("ort_double_kernel_calibration", calib)
     stats = check_programs(chk, rng, thorough, calib)
-    chk.info("programs", stats)
+    chk.info("program_stats", stats)
+    chk.info("programs", stats["programs"])
+    chk.info("disagreements_checked", stats["findings"] + len(row_bad))
     lap("programs")
     chk.info("phase_seconds", phases)
     chk.log(f"phases: {phases}")
